@@ -12,7 +12,7 @@ import (
 func init() {
 	register("C04", &propDef{
 		Title: "Every symlink left by Unpack resolves inside the destination",
-		Rules: []func(*Checker){ruleC04Guard, ruleC04Accept, ruleC04Lexical, rulePredSound("C04.pred"), rulePackerWriters("C04.allowlist"), aliasRule(ruleC01Walk, "C01.walk", "C04.placement", 3)},
+		Rules: []func(*Checker){ruleC04Guard, ruleC04Accept, ruleC04Lexical, ruleC04Relative("C04.relative"), rulePredSound("C04.pred"), rulePackerWriters("C04.allowlist"), aliasRule(ruleC01Walk, "C01.walk", "C04.placement", 3)},
 		NotDecided: []string{
 			"physical resolution through other links beyond the necessary condition C04.lexical checks (which entries exist when, chains of links) — a run-time / filesystem fact no sound static rule here decides",
 			"whether the validator distinguishes every spelling of absolute targets (string content)",
@@ -20,7 +20,7 @@ func init() {
 	})
 	register("C05", &propDef{
 		Title: "Pack never leaks outside content and always emits a slug Unpack accepts",
-		Rules: []func(*Checker){ruleC05Link, ruleC05Deref, rulePredSound("C05.pred"), ruleC05Pos, ruleC04Accept2("C05.accept"), rulePackerWriters("C05.allowlist")},
+		Rules: []func(*Checker){ruleC05Link, ruleC05Deref, rulePredSound("C05.pred"), ruleC05Pos, ruleC04Accept2("C05.accept"), rulePackerWriters("C05.allowlist"), ruleC04Relative("C05.relative")},
 		NotDecided: []string{
 			"content equality of dereferenced copies",
 			"behaviour of links that are in-tree on disk but whose targets are replaced during the walk",
@@ -622,6 +622,28 @@ func ruleC05Pos(c *Checker) {
 			c.fail(R, wname, "archive position", p.Pos(w.Fn.Pos()), "the entry name is not computed with filepath.Rel from an archive position")
 			continue
 		}
+		// the position is computed by path algebra (Join of the destination and the path relative to the
+		// source), not by substituting one spelling of a prefix for another in the on-disk path: the
+		// source of a nested walk is a link target as written on disk (trailing slash, "..", "//") while
+		// filepath.Walk hands out clean paths, so a textual prefix need not match
+		for _, a := range archPos {
+			bad := ""
+			for v := range p.backSlice(a, 0) {
+				if cl, ok := v.(*ssa.Call); ok {
+					o := calleeObj(cl)
+					if o != nil && objPkgPath(o) == "strings" {
+						switch o.Name() {
+						case "Replace", "ReplaceAll", "TrimPrefix", "CutPrefix", "TrimLeft":
+							bad = "strings." + o.Name()
+						}
+					}
+				}
+				if _, ok := v.(*ssa.Slice); ok && isStringType(v.Type()) {
+					bad = "slicing"
+				}
+			}
+			c.check(bad == "", R, wname, "archive position computed, not substituted", p.Pos(w.Fn.Pos()), "the position derives from filepath.Rel / filepath.Join only", "the archive position is obtained by "+bad+" on the on-disk path: for a dereferenced directory whose link target is not spelled cleanly the prefix does not match and entries get glued or '../' names (a slug Unpack refuses), and ignore rules miss them")
+		}
 		isArch := func(v ssa.Value) bool {
 			for _, a := range archPos {
 				if canon(v) == a {
@@ -946,4 +968,83 @@ func ruleC04Lexical(c *Checker) {
 		scan(u.Unpack, ci.Common().Args[0])
 	}
 	c.check(physical || dotdotTest, R, p.FuncName(g), "dot-dot after a named component", p.Pos(g.Pos()), "targets the lexical decision is wrong for are refused, or the physical resolution is checked", "the validator accepts a relative target on its lexically cleaned form only: with entries a/b/c/l -> ../../.. and m -> a/b/c/l/.. both pass (lexically dst and dst/a/b/c), Unpack returns nil, and following m leads to the parent of dst — there is neither a test refusing '..' after a named component nor a physical resolution")
+}
+
+
+// C04.relative / C05.relative — a relative target is judged from the root,
+// without the root's own name.
+func ruleC04Relative(id string) func(*Checker) {
+	return func(c *Checker) {
+		c.rule(id, "An accepting return of the link validator that is rooted at the root parameter and can be reached with a relative target (it is not past the true edge of filepath.IsAbs(target)) is also guarded by a containment decided on the path from the root — filepath.Rel(root, directory of the link) joined with the target, tested for \"..\" and the \"../\" prefix. Containment of the cleaned absolute path alone is satisfied by ../../<name of root>/file, which leaves the root and re-enters it by name: Pack keeps such a link and Unpack then refuses it anywhere but in a directory of that name.", 1)
+		g, _ := linkValidator(c, id)
+		if g == nil {
+			c.anchorMissing(id, "the (bool, error) validator guarding os.Symlink in Unpack")
+			return
+		}
+		p := c.P
+		var tgt *ssa.Parameter
+		if n := len(g.Params); n > 0 {
+			tgt = g.Params[n-1]
+		}
+		absT, _ := condEdges(g, func(v ssa.Value) bool {
+			cl, ok := v.(*ssa.Call)
+			return ok && isFunc(calleeObj(cl), "path/filepath", "IsAbs") && canon(cl.Call.Args[0]) == ssa.Value(tgt)
+		})
+		ks := findContainments(g)
+		var relIn []Containment
+		for _, k := range ks {
+			if k.Kind == "reljoin" && k.Sound && tgt != nil && p.backSlice(k.Subject, 0)[tgt] {
+				relIn = append(relIn, k)
+			}
+		}
+		n := 0
+		for i, r := range returnsOf(g) {
+			bv, isC := constBool(r.Results[0])
+			if isC && !bv {
+				continue
+			}
+			// rooted at the root parameter?
+			rooted := false
+			for _, k := range ks {
+				if k.Kind != "hasprefix" || k.Root == nil || !p.established(k, r.Block()) {
+					continue
+				}
+				for v := range p.backSlice(k.Root, 0) {
+					if prm, ok := v.(*ssa.Parameter); ok && prm.Parent() == g && isStringType(prm.Type()) && prm != tgt {
+						rooted = true
+					}
+				}
+				for v := range p.backSlice(k.Root, 0) {
+					// an allow-list entry is the caller's own choice
+					if u, ok := v.(*ssa.UnOp); ok {
+						if fa, ok := u.X.(*ssa.FieldAddr); ok && fieldOf(fa) != nil && fieldOf(fa).Name() == "allowSymlinkTargets" {
+							rooted = false
+						}
+					}
+				}
+			}
+			if !rooted {
+				continue
+			}
+			n++
+			ok := guarded(r.Block(), absT)
+			if !ok {
+				for _, k := range relIn {
+					// past IsAbs-true or past the rel containment
+					cut := append([]Edge{}, absT...)
+					all := true
+					for _, grp := range k.Conj {
+						if !p.guardedC(r.Block(), append(append([]Edge{}, cut...), grp...)) {
+							all = false
+						}
+					}
+					if all {
+						ok = true
+					}
+				}
+			}
+			c.check(ok, id, p.FuncName(g), fmt.Sprintf("return true %d: relative targets judged from the root", i), p.Pos(r.Pos()), "reached only with an absolute target or past a test of the path from the root for \"..\"", "a relative target is accepted on the cleaned absolute path alone: ../../<name of root>/file leaves the root and comes back in by name — Pack keeps the link, Unpack into any other directory refuses it (or, at Unpack, it leads elsewhere when dst is reached through a link)")
+		}
+		c.check(n > 0, id, p.FuncName(g), "in-root acceptance", p.Pos(g.Pos()), fmt.Sprintf("%d accepting return(s) rooted at the root parameter", n), "no accepting return is rooted at the root parameter")
+	}
 }
